@@ -53,6 +53,15 @@ def run_check(prop, tier="quick"):
     sigs = [l.strip() for l in out.splitlines() if l.strip().startswith("signature ")]
     return rc, (first[0] if first else ""), sigs[:3], time.time() - t
 
+RESULTS = os.path.join(os.path.dirname(os.path.dirname(os.path.abspath(__file__))), "calibration", "results.jsonl")
+
+def record(kind, mid, prop, chk, tests_ok, rc, first, tier):
+    sig = ""
+    if "signature=" in first: sig = first.split("signature=", 1)[1].strip()
+    with open(RESULTS, "a") as f:
+        f.write(json.dumps({"id": mid, "kind": kind, "property": prop, "check": chk, "repo_tests_pass": tests_ok, "rc": rc,
+                            "first_signature": sig, "tier": tier, "when": time.strftime("%Y-%m-%dT%H:%M:%S")}) + "\n")
+
 def main():
     args = sys.argv[1:]
     mode = args[0] if args else "calibration"
@@ -60,7 +69,9 @@ def main():
     tier = "quick"
     checks = None
     if "--tier" in args: tier = args[args.index("--tier") + 1]
-    if "--checks" in args: checks = args[args.index("--checks") + 1].split(",")
+    if "--checks" in args:
+        checks = args[args.index("--checks") + 1].split(",")
+        if checks == ["all"]: checks = [f"C{i:02d}" for i in range(1, 20)]
     sel = [s for s in sel if s not in (tier,) and (checks is None or s != ",".join(checks))]
     if "--sandbox" in args:
         sb = args[args.index("--sandbox") + 1]
@@ -89,6 +100,7 @@ def main():
                     rc, first, sigs, dt = run_check(c, tier)
                     line += f" | {c}: rc={rc} {dt:.0f}s {first[:110]} {sigs[:1]}"
                     results.append((name, c, ok, rc))
+                    record("calibration", name, prop, c, ok, rc, first, tier)
                 print(line, flush=True)
                 revert()
         else:
@@ -106,6 +118,7 @@ def main():
                     rc, first, sigs, dt = run_check(c, tier)
                     line += f" | {c}: rc={rc} {dt:.0f}s {first[:110]} {sigs[:1]}"
                     results.append((sid, c, ok, rc))
+                    record("seeded", sid, prop, c, ok, rc, first, tier)
                 print(line, flush=True)
                 revert()
     finally:
